@@ -296,14 +296,35 @@ fn shorten_loc(loc: &str) -> String {
   l.to_string()
 }
 
+/// A pending child run: `picks[..at] ++ [alt]`, materialised only when popped.
+struct Job {
+  parent: std::sync::Arc<Vec<u32>>,
+  at: u32,
+  alt: u32,
+}
+
+impl Job {
+  fn prefix(&self) -> Vec<u32> {
+    let mut p = Vec::with_capacity(self.at as usize + 1);
+    p.extend_from_slice(&self.parent[..self.at as usize]);
+    if self.alt != u32::MAX {
+      p.push(self.alt);
+    }
+    p
+  }
+}
+
 struct Shared {
-  stack: Mutex<(Vec<Vec<u32>>, usize)>, // (work, in-flight)
+  /// (donated work, number of workers that currently hold work)
+  stack: Mutex<(Vec<Job>, usize)>,
   cv: Condvar,
   stop: AtomicBool,
   runs: AtomicU64,
+  hungry: std::sync::atomic::AtomicUsize,
 }
 
-pub static WATCH: Mutex<Vec<Option<(Instant, Vec<u32>)>>> = Mutex::new(Vec::new());
+pub type WatchSlot = std::sync::Arc<Mutex<Option<(Instant, Vec<u32>)>>>;
+pub static WATCH: Mutex<Vec<WatchSlot>> = Mutex::new(Vec::new());
 
 fn deviations(trace: &[Point], upto: usize) -> u32 {
   trace[..upto]
@@ -314,71 +335,86 @@ fn deviations(trace: &[Point], upto: usize) -> u32 {
 
 pub fn explore<F: Fn(&Ch) -> Run + Sync>(body: &F, cfg: &ExploreCfg) -> Stats {
   let start = Instant::now();
+  let threads = cfg.threads.max(1);
   let shared = Shared {
-    stack: Mutex::new((vec![vec![]], 0)),
+    stack: Mutex::new((
+      vec![Job {
+        parent: std::sync::Arc::new(vec![]),
+        at: 0,
+        alt: u32::MAX,
+      }],
+      0,
+    )),
     cv: Condvar::new(),
     stop: AtomicBool::new(false),
     runs: AtomicU64::new(0),
+    hungry: std::sync::atomic::AtomicUsize::new(0),
   };
-  let threads = cfg.threads.max(1);
-  {
-    let mut w = WATCH.lock().unwrap();
-    w.clear();
-    w.resize(threads, None);
-  }
+  let slots: Vec<WatchSlot> = (0..threads).map(|_| Default::default()).collect();
+  *WATCH.lock().unwrap() = slots.clone();
   let mut total = Stats::default();
   std::thread::scope(|s| {
     let mut handles = Vec::new();
     for tid in 0..threads {
       let shared = &shared;
+      let slot = slots[tid].clone();
       handles.push(
         std::thread::Builder::new()
           .stack_size(256 << 20)
           .spawn_scoped(s, move || {
             let mut st = Stats::default();
             let mut sig_counts: std::collections::HashMap<String, usize> = Default::default();
+            // depth-first on a private stack; work is donated to the shared
+            // stack only when some worker is idle
+            let mut local: Vec<Job> = Vec::new();
             loop {
-              let prefix = {
+              if local.is_empty() {
                 let mut g = shared.stack.lock().unwrap();
-                loop {
+                shared.hungry.fetch_add(1, Ordering::Relaxed);
+                let got = loop {
                   if shared.stop.load(Ordering::Relaxed) {
                     break None;
                   }
-                  if let Some(p) = g.0.pop() {
+                  if let Some(j) = g.0.pop() {
                     g.1 += 1;
-                    break Some(p);
+                    break Some(j);
                   }
                   if g.1 == 0 {
                     break None;
                   }
                   g = shared.cv.wait(g).unwrap();
+                };
+                shared.hungry.fetch_sub(1, Ordering::Relaxed);
+                drop(g);
+                match got {
+                  Some(j) => local.push(j),
+                  None => {
+                    shared.cv.notify_all();
+                    break;
+                  }
                 }
-              };
-              let Some(prefix) = prefix else {
-                shared.cv.notify_all();
-                break;
-              };
+              }
+              let prefix = local.pop().unwrap().prefix();
               let idx = shared.runs.fetch_add(1, Ordering::Relaxed);
               if idx >= cfg.run_cap {
                 st.capped = Some(format!("run cap {} reached", cfg.run_cap));
                 shared.stop.store(true, Ordering::Relaxed);
-              } else if start.elapsed() > cfg.wall_cap {
-                st.capped =
-                  Some(format!("wall cap {:?} reached", cfg.wall_cap));
+              } else if idx % 64 == 0 && start.elapsed() > cfg.wall_cap {
+                st.capped = Some(format!("wall cap {:?} reached", cfg.wall_cap));
                 shared.stop.store(true, Ordering::Relaxed);
               }
               if shared.stop.load(Ordering::Relaxed) {
+                local.clear();
                 let mut g = shared.stack.lock().unwrap();
                 g.1 -= 1;
                 drop(g);
                 shared.cv.notify_all();
                 break;
               }
-              WATCH.lock().unwrap()[tid] = Some((Instant::now(), prefix.clone()));
+              *slot.lock().unwrap() = Some((Instant::now(), prefix.clone()));
               let describe = idx < 3;
               let res = run_once(body, &prefix, describe);
-              WATCH.lock().unwrap()[tid] = None;
-              let mut children = Vec::new();
+              *slot.lock().unwrap() = None;
               match res {
                 RunResult::Machinery(m) => {
                   st.machinery = Some(format!("{m} (prefix {prefix:?})"));
@@ -408,6 +444,7 @@ pub fn explore<F: Fn(&Ch) -> Run + Sync>(body: &F, cfg: &ExploreCfg) -> Stats {
                   }
                   st.max_points = st.max_points.max(trace.len());
                   let picks: Vec<u32> = trace.iter().map(|p| p.pick).collect();
+                  let shared_picks = std::sync::Arc::new(picks.clone());
                   for v in run.violations {
                     // keep a few witnesses per *signature* so that frequent
                     // (e.g. known) signatures cannot crowd out rare ones
@@ -419,34 +456,43 @@ pub fn explore<F: Fn(&Ch) -> Run + Sync>(body: &F, cfg: &ExploreCfg) -> Stats {
                   }
                   st.max_deviations_seen =
                     st.max_deviations_seen.max(deviations(&trace, trace.len()));
+                  // children in reverse so that the smallest is popped first
+                  let first_child = local.len();
                   for i in prefix.len()..trace.len() {
                     st.max_arity = st.max_arity.max(trace[i].arity);
                     let base = deviations(&trace, i);
                     let allowed = match cfg.mode {
                       Mode::Full => true,
-                      Mode::Deviations(d) => {
-                        trace[i].cost == 0 || base + 1 <= d
-                      }
+                      Mode::Deviations(d) => trace[i].cost == 0 || base + 1 <= d,
                     };
                     if !allowed {
                       continue;
                     }
                     for alt in 1..trace[i].arity {
-                      let mut p = picks[..i].to_vec();
-                      p.push(alt);
-                      children.push(p);
+                      local.push(Job {
+                        parent: shared_picks.clone(),
+                        at: i as u32,
+                        alt,
+                      });
                     }
                   }
+                  local[first_child..].reverse();
                 }
               }
-              {
+              // donate the older half when somebody is waiting
+              if local.len() > 1 && shared.hungry.load(Ordering::Relaxed) > 0 {
                 let mut g = shared.stack.lock().unwrap();
-                // reverse so that the lexicographically smallest is popped first
-                children.reverse();
-                g.0.extend(children);
-                g.1 -= 1;
+                let give = local.len() / 2;
+                g.0.extend(local.drain(..give));
+                drop(g);
+                shared.cv.notify_all();
               }
-              shared.cv.notify_all();
+              if local.is_empty() {
+                let mut g = shared.stack.lock().unwrap();
+                g.1 -= 1;
+                drop(g);
+                shared.cv.notify_all();
+              }
             }
             st
           })
